@@ -103,10 +103,18 @@ package views
 //@           decreases v.width - x
 //@   modifies nothing
 
+// Resize: the requested rectangle, clipped to the parent (whose size is what its Size() reports): an origin outside the
+// parent is not taken, the extent never reaches past the parent's far edge as seen from the REQUESTED origin, and
+// the visible window stays inside the content limits (the scroll offset is re-validated against the new size).
 //@ func (*ViewPort).Resize
 //@   arith math
+//@   let ok0 = okX(v) && okY(v)
 //@   ensures [noparent] old(v.v) == nil ==> v.width == old(v.width) && v.height == old(v.height) && v.physx == old(v.physx) && v.physy == old(v.physy)
-//@   modifies v.physx, v.physy, v.width, v.height
+//@   calls [geometry] call("View.Size", recv, ps) ==>
+//@        v.physx == ((x >= 0 && x < ps.0) ? x : old(v.physx)) && v.physy == ((y >= 0 && y < ps.1) ? y : old(v.physy)) &&
+//@        v.width == ((width < 0 || width > ps.0 - x) ? ps.0 - x : width) && v.height == ((height < 0 || height > ps.1 - y) ? ps.1 - y : height)
+//@   ensures [window] ok0 ==> okX(v) && okY(v)
+//@   modifies v.physx, v.physy, v.width, v.height, v.viewx, v.viewy
 
 // ---------------------------------------------------------------------------
 // C20: BoxLayout - placement of the children.  THIN contracts: the cells are a slice of pointers to structs holding
